@@ -299,7 +299,7 @@ func (t *tdExt) step(r *h.Report, done []string, f []string, preS, preB []regEnt
 		}
 		w.out = append(w.out, w.log.take()...)
 		impl = map[bool]string{true: "ok", false: "err"}[e == nil]
-		if (e == nil) != w.alive[p] {
+		if (e == nil) != (w.alive[p] && !w.late[p]) {
 			r.SpecFail("C10/client-request-to-peer", done, fmt.Sprintf("%s answered %s, peer connected: %v", op, impl, w.alive[p]))
 		}
 		kind = f[0] + ":" + impl
@@ -310,7 +310,7 @@ func (t *tdExt) step(r *h.Report, done []string, f []string, preS, preB []regEnt
 		bySki := w.l.RemoteDeviceForSki(regSki(p)) != nil
 		byAddr := w.l.RemoteDeviceForAddress(model.AddressDeviceType(regDev(p))) != nil
 		impl = strconv.Itoa(h.B2i(bySki && byAddr))
-		if bySki != w.alive[p] || byAddr != w.alive[p] {
+		if bySki != w.alive[p] || byAddr != (w.alive[p] && !w.late[p]) {
 			key := "C10/device-still-resolvable"
 			if w.alive[p] {
 				key = "C10/other-device-unresolvable"
@@ -348,24 +348,28 @@ func (t *tdExt) step(r *h.Report, done []string, f []string, preS, preB []regEnt
 }
 
 // afterTeardown: SPEC (C10) for the parts only the composed world has.
-func (t *tdExt) afterTeardown(r *h.Report, done []string, op string, p int, ent string, existed bool) {
+func (t *tdExt) afterTeardown(r *h.Report, done []string, op string, p int, drop bool, removed []string) {
+	gone := map[string]bool{}
+	for _, e := range removed {
+		gone[e] = true
+	}
 	for c, sp := range t.pend {
-		if sp.peer == p && (ent == "" || sp.ce == ent) {
+		if sp.peer == p && (drop || gone[sp.ce]) {
 			delete(t.pend, c)
-			t.why[c] = map[bool]string{true: "drop", false: "entity"}[ent == ""]
+			t.why[c] = map[bool]string{true: "drop", false: "entity"}[drop]
 		}
 	}
 	for q := 1; q <= t.w.npeers; q++ {
 		now := t.chas(q)
 		bits := strings.Fields(t.preBits[q])
-		if q == p && existed {
+		if q == p {
 			for i, e := range tdTargets {
-				// all and ONLY the bookkeeping for the removed device / for exactly the removed entity disappears
-				if ent == "" || ent == e {
+				// all and ONLY the bookkeeping for the removed device / for exactly the removed entities disappears
+				if drop || gone[e] {
 					bits[2*i], bits[2*i+1] = "0", "0"
 				}
 			}
-			if ent == "" {
+			if drop {
 				bits[len(bits)-1] = "0"
 			}
 		}
@@ -397,7 +401,14 @@ func tdE(e int) string {
 }
 
 func genTdHistory(rng regRng, n, np int, withShort bool) (ops []string, firstShort int) {
-	ops = []string{fmt.Sprintf("peers %d", np)}
+	head := fmt.Sprintf("peers %d", np)
+	latePeer := 0
+	if !withShort && rng.Intn(4) == 0 {
+		latePeer = np // the last peer's discovery reply arrives somewhere in the middle
+		head += fmt.Sprintf(" late:%d", latePeer)
+	}
+	ops = []string{head}
+	discoverAt := rng.Intn(n/2 + 1)
 	firstShort = -1
 	type bound struct{ p, ce, cf, se, sf int }
 	var binds, prefix []bound
@@ -422,6 +433,12 @@ func genTdHistory(rng regRng, n, np int, withShort bool) (ops []string, firstSho
 		return false
 	}
 	for i := 0; i < n; i++ {
+		if latePeer != 0 && i == discoverAt {
+			ops = append(ops, fmt.Sprintf("discover %d", latePeer))
+		}
+		if rng.Intn(25) == 0 {
+			ops = append(ops, fmt.Sprintf("addent %d %s", 1+rng.Intn(np), []string{"1", "1.1", "2"}[rng.Intn(3)]))
+		}
 		p := 1 + rng.Intn(np)
 		v := valid[rng.Intn(len(valid))]
 		switch k := rng.Intn(30); {
@@ -567,6 +584,13 @@ func TestTeardown(t *testing.T) {
 	for _, wit := range [][]string{tdWitTimer, tdWitEntityAppr, tdWitBinding, regWitDropAny, regWitDropEntAny} {
 		run(wit)
 	}
+	// a peer that is still before its discovery reply when another connection is removed must be served afterwards
+	run([]string{"peers 2 late:2", "bind 1 1 1 1 1 1", "csub 1 1", "drop 1", "chas 2", "discover 2", "chas 2", "csub 2 1", "bind 2 1 1 1 1 1", "wr 2 1 1 1 1 100001 L", "approve 2 100001", "read 2", "dropent 2 1.1", "addent 2 1.1", "sub 2 1.1 1 1 1 1", "subs 2"})
+	run([]string{"peers 3 late:3", "sub 1 1 1 1 1 1", "sub 2 1 1 1 1 1", "drop 1", "drop 2", "discover 3", "chas 3", "sub 3 1 1 1 1 1", "notify 1 1"})
+	// the device information entity among the removed ones
+	for _, l := range []string{"dropent 1 0,1,1.1", "dropent 1 1.1,0,1", "full 1 2", "full 1 0,1"} {
+		run([]string{"peers 2", "csub 1 1", "cbind 1 1.1", "csub 2 1", "bind 1 1 1 1 1 1", "sub 1 1.1 1 1 1 1", "sub 2 1 1 1 1 1", "wr 1 1 1 1 1 100001 L", l, "chas 1", "chas 2", "subs 1", "binds 1", "subs 2", "read 2", "notify 1 1", "approve 1 100001"})
+	}
 	// parent and child entities: the local client is subscribed and bound to servers of [1] and of [1,1] of both peers,
 	// both peers have entries from both entities; the child goes while the parent stays, and the other way round
 	hier := []string{"peers 2", "csub 1 1", "cbind 1 1", "csub 1 1.1", "cbind 1 1.1", "csub 2 1", "cbind 2 1", "csub 2 1.1", "cbind 2 1.1",
@@ -577,11 +601,7 @@ func TestTeardown(t *testing.T) {
 	}
 	rng := h.Rng(10)
 	insert := func(b []string, pos, np int, withFire bool) []string {
-		p := 1 + rng.Intn(np)
-		fault := fmt.Sprintf("drop %d", p)
-		if rng.Intn(3) == 0 {
-			fault = fmt.Sprintf("dropent %d %s", p, []string{"1", "1.1", "1.1", "2"}[rng.Intn(4)])
-		}
+		fault := regFaultOp(rng, 1+rng.Intn(np))
 		ops := append(append(append([]string{}, b[:pos]...), fault), b[pos:]...)
 		return append(ops, tdObserve(b, np, withFire)...)
 	}
